@@ -1636,10 +1636,9 @@ class LSCycles(Command):
         self._cycles = 0
         self._nrf = ''
         self._nextra = ''
-        try:
+        # nls is zero if it is not given (L.S. nls[0] nrf[0] nextra[0]):
+        if len(p) > 0:
             self._cycles = int(p[0])
-        except (IndexError, NameError, ValueError):
-            raise ParseNumError(debug=self.shx.debug, verbose=self.shx.verbose)
         try:
             self._nrf = int(p[1])
         except IndexError:
